@@ -446,6 +446,19 @@ class DiscriminatedUnionUnpackerBuilder(AbstractUnpackerBuilder):
                     )
         else:
             with lines.indent(f"for variant in {variants}:"):
+                if spec.builder.is_nailed:
+                    # a variant that only inherits the compiled method of its
+                    # parent (plain dataclass defined after the first call)
+                    # must get its own one, otherwise the parent is built
+                    with lines.indent(
+                        f"if '{variant_method_name}' not in variant.__dict__:"
+                    ):
+                        self._add_build_variant_unpacker(
+                            spec,
+                            lines,
+                            variant_method_name,
+                            variant_method_call,
+                        )
                 with lines.indent("try:"):
                     if spec.builder.is_nailed:
                         lines.append(f"return variant.{variant_method_call}")
